@@ -299,7 +299,7 @@ def check_routing(ctx, P):
             ctx.ob("d.routing", "route|%s" % f.name, ok,
                    "reply forwarded to a peripheral without `addr == peripheral.address()` for that same peripheral: " + w, f.loc(b))
             # the peripheral comes from the slot the cycle state points at
-            from_cycle = M.mentions(recv, M.t_call("get_at_index_mut"))
+            from_cycle = M.mentions_through_defs(f, tb, recv, M.t_call("get_at_index_mut"))
             ctx.ob("d.routing", "route-slot|%s" % f.name, from_cycle,
                    "receiving peripheral is not the one obtained from get_at_index_mut(cycle index): " + show(recv), f.loc(b))
     ctx.anchor("Peripheral::receive_reply call sites in dp::master", n, 1)
